@@ -115,6 +115,8 @@ def crash_key(tail):
     if m:
         loc = m.group(3)
         loc = re.sub(r":\d+(:\d+)?$", "", os.path.basename(loc)) if "/" in loc else loc
+        if "+0x" in loc:
+            loc = "-"  # no source location (e.g. allocator): binary offsets are not stable
         return "sanitizer:%s:%s" % (m.group(2), loc)
     if "Assertion" in tail or "assert" in tail:
         return "abort:assert"
